@@ -426,6 +426,7 @@ fn copy_step(st: &RState, a: &str, b: &str, mode: &CopyMode, follow: bool) -> Pr
         CopyMode::All(m) => (Some(*m), Some(*m)),
         CopyMode::Dirs(m) => (Some(*m), None),
         CopyMode::Files(m) => (None, Some(*m)),
+        CopyMode::DirsThenAll(_, m) | CopyMode::FilesThenAll(_, m) => (Some(*m), Some(*m)),
     };
     for k in st.tree.subtree(&s) {
         let src = &st.tree.nodes[&k];
